@@ -891,6 +891,10 @@ impl Wake for WakeState {
     }
 }
 
+/// An extension the harness attaches to every submitted request (pass-through check, C15).
+#[derive(Clone, Debug, PartialEq)]
+pub struct Marker(pub usize);
+
 pub struct Job {
     pub req: Request<Bytes>,
     pub node: Node,
@@ -945,7 +949,8 @@ pub fn run_tasks(shared: &SharedRef, tasks: Vec<Vec<Job>>, pol: ExecPolicy, t: &
             for job in jobs {
                 cv.store(job.val, Ordering::SeqCst);
                 sh.lock().unwrap().push(ti, job.val, EvKind::ValStart);
-                let (parts, body) = job.req.into_parts();
+                let (mut parts, body) = job.req.into_parts();
+                parts.extensions.insert(Marker(job.val));
                 let req = Request::from_parts(parts, SimBody {
                     bytes: body,
                     shared: Some(sh.clone()),
